@@ -25,8 +25,8 @@ META = {
     "assumptions": ["documents on which resolving the path argument is itself an error by C04 (`single` with several "
                     "matches, datum modifier undefined on a selected node) are executed, counted and not judged",
                     "the literal rule is judged by the implementation itself (relational oracle): leaf meanings are C01's business"],
-    "bounds": {"quick": {"documents": "~190", "positions": 16, "path arguments": 13},
-               "thorough": {"documents": "~190 + F-type two-level", "positions": 16, "path arguments": 13}},
+    "bounds": {"quick": {"documents": "~190", "positions": 18, "path arguments": 15},
+               "thorough": {"documents": "~190 + F-type two-level", "positions": 18, "path arguments": 15}},
 }
 
 L = T.leaf
@@ -37,7 +37,7 @@ PARGS = [
     P((M,)), P((("prim", "lst"), Ls)), P((("prim", "lst"), ("list", None, gen.V_EQ1, None)), None, "first"),
     P((("prim", "lst"), Ls), None, "last"), P((("prim", "lst"), ("list", ("lit", 0), None, None)), None, "single"),
     P((("prim", "b"),), "length"), P((("prim", "m"),), "map_keys"), P((("prim", "lst"), Ls), "dtype", "all", "md"),
-    P((("prim", "zz"), Ls)), P(()),
+    P((("prim", "zz"), Ls)), P(()), P((("prim", "b"),), "dtype"),
 ]
 
 
@@ -55,6 +55,7 @@ def positions(pa):
         ("in-list:in_", L("Value", "in_", [a, 5])), ("in-list:equal_to", L("Value", "equal_to", [1, a])),
         ("in-mapping:equal_to", L("Value", "equal_to", {"x": a})),
         ("length:equal_to", L("ValueLength", "equal_to", a)),
+        ("dtype:equal_to", L("ValueDataType", "equal_to", a)), ("dtype:in_", L("ValueDataType", "in_", [a, str])),
         ("tree", ("and", L("Value", "greater_than_or_equal_to", a), ("or", L("Value", "equal_to", a), L("Value", "truthy")))),
     ]
 
@@ -75,6 +76,12 @@ def documents(tier):
         out.append({"a": [1, x], "b": x, "lst": [[1, x], x]})
     out += [{"a": 1}, {"b": 1}, {"lst": [1]}, [1, 2], {"a": ["b"], "b": "b"}, {"a": {"path": ["b"]}, "b": 1},
             {"a": 2, "b": 2, "lst": [2, 1, 1], "m": {"a": 1, "x": 2}}, {"a": 3, "b": [1, 2, 3], "lst": [1], "m": {"x": 1, "y": 2, "z": 3}}]
+    # adjacent documents that compare == but differ in type (1 == True == 1.0): a re-used rule must not confuse them
+    for seq in ([1, True, 1.0, 1], [0, False, 0.0], [[1], [True], [1.0]], [{"x": 1}, {"x": True}]):
+        for x in seq:
+            out.append({"a": x, "b": x})
+        for x in seq:
+            out.append({"a": 1, "b": x, "lst": [x, x], "m": {"x": x}})
     if tier == "thorough":
         out += gen.docs_type2()
     return out
@@ -114,8 +121,11 @@ def run_unit(unit, tier):
     cs, docs = _cases(tier)
     for i in range(unit[0], unit[1]):
         pos, pa, rt = cs[i]
+        # H flavour: ONE rule object (API-built) and one spec-built rule are reused for all documents in turn,
+        # each verdict compared with a freshly built literal rule
+        shared = {}
         for di, doc in enumerate(docs):
-            check_case(res, pos, pa, rt, doc, key=(i, di))
+            check_case(res, pos, pa, rt, doc, key=(i, di), shared=shared, history=docs[:di])
     res.sample({"position": cs[unit[0]][0], "path_arg": cs[unit[0]][1], "rule": cs[unit[0]][2], "doc": docs[0]})
     return res
 
@@ -125,7 +135,11 @@ def replay(case):
     if case.get("escaped"):
         check_escaped(res)
     else:
-        check_case(res, case["position"], case["path_arg"], case["rule"], case["doc"], key=("replay",))
+        shared = {}
+        for d in case.get("history", []):      # re-create the history of the shared rule objects
+            check_case(Result(), case["position"], case["path_arg"], case["rule"], d, key=("replay-h",), shared=shared, history=[])
+        check_case(res, case["position"], case["path_arg"], case["rule"], case["doc"], key=("replay",), shared=shared,
+                   history=case.get("history", []))
     return list(res.violations.values())
 
 
@@ -154,16 +168,19 @@ def observe(rule, doc):
         return ("raises", type(e).__name__)
 
 
-def check_case(res, pos, pa, rt, doc, key):
+def check_case(res, pos, pa, rt, doc, key, shared=None, history=()):
     res.count("evaluations")
     res.state(*key)
+    shared = {} if shared is None else shared
     case = {"position": pos, "path_arg": pa, "rule": rt, "doc": doc}
+    if "api" not in shared:
+        shared["api"] = T.build_rule(rt)
     try:
         lit = ref.select(pa, doc)
     except (ref.DatumUndefined, ref.MultipleMatches) as e:
         res.count("path_argument_undefined_not_judged")
         # executed all the same (must not corrupt anything); outcome not judged
-        observe(T.build_rule(rt), doc)
+        observe(shared["api"], doc)
         res.count("transitions")
         return
     lit_rule = T.rule(rt[1], subst(rt[2], fresh(lit)))
@@ -175,8 +192,12 @@ def check_case(res, pos, pa, rt, doc, key):
     sig = "%s|%s|%s" % (pos, shape(pa) + ("." + str(pa[2]) if pa[2] else "") + ("." + str(pa[3]) if pa[3] else ""), shape(rt[1]))
     # API-built
     res.count("transitions", 2)
-    got = observe(T.build_rule(rt), doc)
+    got = observe(shared["api"], doc)
     if got != want:
+        fresh_got = observe(T.build_rule(rt), doc)
+        if fresh_got == want:   # only the re-used rule object is wrong: history-dependent
+            case["history"] = list(history)
+            sig = "reused-rule:" + sig
         res.violation("api:%s" % sig, "Rule with data-path argument %s (%s) on %r differs from the same rule with the "
                       "resolved literal %r" % (T.show(pa), pos, doc, lit), case, observed=got, expected=want)
         return
@@ -184,12 +205,16 @@ def check_case(res, pos, pa, rt, doc, key):
     spec = S.rule_spec(rt)
     res.count("transitions")
     try:
-        r2 = Rule.from_spec(spec)
+        if "spec" not in shared:
+            shared["spec"] = Rule.from_spec(spec)
+        r2 = shared["spec"]
     except BaseException as e:
         res.violation("spec-parse:%s:%s" % (type(e).__name__, pos), "rule spec %r was rejected: %r" % (spec, e), case, observed=repr(e))
         return
     got2 = observe(r2, doc)
     if got2 != want:
+        if observe(Rule.from_spec(S.rule_spec(rt)), doc) == want:
+            case["history"] = list(history)
         res.violation("spec:%s" % sig, "spec-built rule with '{path..}' argument (%s) on %r differs from the rule with the "
                       "resolved literal %r" % (pos, doc, lit), case, observed=got2, expected=want)
         return
